@@ -228,6 +228,12 @@ def _is_rng_ctor(t: Term) -> bool:
     # Generator.spawn(n)[i] -> a child stream
     if t[0] == "index" and t[1][0] == "call" and t[1][1][0] == "attr" and t[1][1][2] == "spawn":
         return True
+    if t[0] == "call" and t[1][0] == "attr" and t[1][2] == "spawn":
+        return True          # a list of child generators
+    if t[0] in ("list", "tuple") and t[1] and all(_is_rng_ctor(x) for x in t[1]):
+        return True
+    if t[0] == "comp" and _is_rng_ctor(t[2]):
+        return True
     if t[0] in ("phi", "ifexp"):
         return _is_rng_ctor(t[2]) or _is_rng_ctor(t[3])
     return False
